@@ -95,12 +95,12 @@ pub open spec fn callee_continuation(vm: Vm) -> Option<crate::vm::continuation::
     match heap_deref(vm.heap_spec(), vm.acc_spec()) { VCell::Continuation(c) => Some(*c), _ => None }
 }
 /// invoking a continuation (CALL or TCALL with a continuation in %acc): the machine is back at the captured control state --
-/// live stack, stack pointer, %ep, %ip, %bp of the capture -- and the accumulator holds the delivered argument cell itself
+/// live stack, stack pointer, %ep, %ip, %bp of the capture -- and, for an invocation with one argument, the accumulator holds that argument cell itself
 /// (the cell under the argument count; not a copy, not what it points to); heap and globals are as they were before the call
 pub open spec fn continuation_invoked(old: Vm, new: Vm, c: crate::vm::continuation::Continuation) -> bool {
     let s0 = old.stack_spec(); let sp = s0.sp_spec() as int;
-    &&& sp >= 2 && (argc_at(s0, sp) matches Some(k) && k != 0)
-    &&& new.acc_spec() == s0.cells()[sp - 1]
+    // the property speaks about invoking k with ONE value: nothing is demanded of (k) or (k v w ...)
+    &&& (argc_at(s0, sp) == Some(1usize)) ==> sp >= 2 && new.acc_spec() == s0.cells()[sp - 1]
     &&& new.regs() == cont_regs(c)
     &&& new.stack_spec().wf() && new.stack_spec().live() == cont_stack(c).cells() && new.stack_spec().sp_spec() == cont_stack(c).sp_spec()
     &&& new.heap_spec() == old.heap_spec() && new.globenv_spec() == old.globenv_spec()
